@@ -230,4 +230,26 @@ def suite_threads(ctx):
     return s
 
 
-SUITES = [suite_msg, suite_threads]
+def suite_isolated(ctx):
+    """a process that imports nothing but the message classes (a log decoder, a sniffer) parses and re-encodes the frames of the standard services (child process: harness/isolated_child.py parse_only)"""
+    import json
+    import os
+    import subprocess
+    import sys as _sys
+    s = Suite('isolated')
+    env = dict(os.environ, UDS_REPO=core.REPO)
+    child = os.path.join(os.path.dirname(os.path.dirname(os.path.abspath(__file__))), 'isolated_child.py')
+    p = subprocess.run([_sys.executable, child, 'parse_only'], stdout=subprocess.PIPE, stderr=subprocess.PIPE, text=True, env=env, timeout=120)
+    s.evaluations += 1
+    s.distinct.add('parse_only')
+    try:
+        problems = json.loads(p.stdout.strip().split('\n')[-1])
+    except Exception:  # noqa
+        problems = [{'input': 'isolated_child.py parse_only', 'observed': 'child failed: ' + (p.stderr or p.stdout)[-500:], 'required': 'the scenarios run to their end'}]
+    for pr in problems:
+        s.fail({'site': 'parsing in a parse-only process', 'input': pr['input'], 'observed': pr['observed'], 'required': pr['required']})
+    s.exhaustive = True
+    return s
+
+
+SUITES = [suite_msg, suite_threads, suite_isolated]
